@@ -168,3 +168,22 @@ func runAll(repo, verif, tier string) int {
 	}
 	return worst
 }
+
+// borrowRule re-runs another property's checker on the already loaded universes and adopts the obligations of
+// one of its rules under a rule name of the current property (the same structural fact is a necessary
+// condition of both properties)
+func borrowRule(c *Ctx, fromProp, fromRule, asRule string) {
+	sub := &Ctx{Repo: c.Repo, Verif: c.Verif, Tier: c.Tier, core: c.core, server: c.server, R: newReport(fromProp, c.Tier)}
+	props[fromProp](sub)
+	c.core, c.server = sub.core, sub.server
+	n := 0
+	for _, o := range sub.R.Obls {
+		if o.Rule == fromRule {
+			c.R.add(asRule, o.Construct, o.Status, o.Pos, o.Detail)
+			n++
+		}
+	}
+	if n == 0 {
+		c.R.viol(asRule, "borrowed:"+fromRule, "", "rule "+fromRule+" produced no obligation")
+	}
+}
